@@ -190,6 +190,18 @@ func runFunction(vc *VC, u *Universe, pi *PkgInfo, fc *FuncContract, fn *ssa.Fun
 			o.ClauseCE = en.Expr
 			o.Slow = en.Slow
 			o.Splits = splitsFor(en.Tag)
+			// vacuity guard: the antecedent of "A ==> B" must be reachable at a return
+			if en.Expr.Kind == "bin" && en.Expr.Name == "==>" {
+				post.goal = false
+				ante := post.evalBool(en.Expr.Args[0])
+				post.goal = true
+				tag := en.Tag
+				if tag == "" {
+					tag = fmt.Sprint(k + 1)
+				}
+				vc.obls = append(vc.obls, &Obl{Name: vc.fnName + "#cover.post." + tag, Kind: "cover", Goal: Not(And(fin.Reach, ante)), N: len(vc.items),
+					Desc: "the antecedent of postcondition " + tag + " is reachable (otherwise the clause is vacuous)", Fn: vc.fnName, VC: vc, Expect: "sat", Pos: x.posOf(fn, fn.Pos()), Slow: en.Slow})
+			}
 			if en.Tag != "" {
 				o.Name = vc.fnName + "#post." + en.Tag
 			}
@@ -224,6 +236,11 @@ func runFunction(vc *VC, u *Universe, pi *PkgInfo, fc *FuncContract, fn *ssa.Fun
 	}
 	for _, o := range vc.obls {
 		o.FC = fc
+		for _, sub := range fc.SlowObls {
+			if strings.Contains(o.Name, sub) {
+				o.Slow = true
+			}
+		}
 	}
 	if fc.Tier == "thorough" {
 		for _, o := range vc.obls {
